@@ -4,6 +4,7 @@ import (
 	"encoding/json"
 	"fmt"
 	"os"
+	"runtime"
 	"runtime/debug"
 	"sort"
 	"strconv"
@@ -105,6 +106,10 @@ func runOne(t *testing.T, c *Case) *CaseResult {
 	var cr *CaseResult
 	start := time.Now()
 	t.Run(fmt.Sprintf("case-%d", c.Idx), func(t *testing.T) {
+		if c.GoMaxProcs > 0 {
+			prev := runtime.GOMAXPROCS(c.GoMaxProcs)
+			defer runtime.GOMAXPROCS(prev)
+		}
 		cr = RunCase(t, c)
 	})
 	if cr == nil {
